@@ -79,6 +79,11 @@ func (sp *SAMLServiceProvider) buildAuthnRequest(includeSig bool) (*etree.Docume
 	}
 
 	doc := etree.NewDocument()
+	// Escape CR (and TAB/LF in attributes) so that values survive parsing by the recipient
+	doc.WriteSettings = etree.WriteSettings{
+		CanonicalAttrVal: true,
+		CanonicalText:    true,
+	}
 
 	// Only POST binding includes <Signature> in <AuthnRequest> (includeSig)
 	if sp.SignAuthnRequests && includeSig {
@@ -340,6 +345,11 @@ func (sp *SAMLServiceProvider) buildLogoutRequest(includeSig bool, nameID string
 	nameId.SetText(sessionIndex)
 
 	doc := etree.NewDocument()
+	// Escape CR (and TAB/LF in attributes) so that values survive parsing by the recipient
+	doc.WriteSettings = etree.WriteSettings{
+		CanonicalAttrVal: true,
+		CanonicalText:    true,
+	}
 
 	if includeSig {
 		signed, err := sp.SignLogoutRequest(logoutRequest)
